@@ -277,6 +277,34 @@ def run(ctx):
                              f"{q} decides on the truthiness of the value stored under a tag: a tag holding '' (a legal value) is treated as missing", loc(a))
     ctx.instance("C18.typed-lookups", "FIXContainer[presence by identity/membership]", True)
 
+    # a group item is stored as the container that was given (a copy through the tag-map constructor would stringify nested groups)
+    from sa.cfg import CFG as _CFG
+    from sa.guards import reaching_defs as _rd, facts as _facts
+    for mname, var in (("add_group", "group"), ("set_group", "m")):
+        f = methods[mname]
+        g = _CFG(f)
+        rd = _rd(g, exc=False)
+        sinks = [n for n in g.nodes if n.kind == "stmt" and any(isinstance(c, ast.Call) and isinstance(c.func, ast.Attribute) and c.func.attr == "add_group"
+                                                                and c.args and unparse(c.args[0]) == var for c in walk_no_nested(n.ast))]
+        ok = bool(sinks)
+        why = ""
+        for sk in sinks:
+            for d in rd[sk.id].get(var, set()):
+                dn = g.nodes[d]
+                if dn.kind == "for":
+                    continue  # the loop variable over the caller's list
+                val = getattr(dn.ast, "value", None)
+                fs = set()
+                for t, lab in g.guards(d, exc=False):
+                    fs |= _facts(t, lab == "true")
+                conv = isinstance(val, ast.Call) and unparse(val.func) == "FIXContainer" and (f"isinstance({var}, dict)", True) in fs
+                if not conv:
+                    ok = False
+                    why = f"`{short(dn.ast)}`"
+        ctx.instance("C18.stored-as-string", f"{mname}[item stored as given]", ok,
+                     f"{mname} replaces the item by {why} before storing it: a container item is rebuilt through the tag-map constructor, which stringifies nested groups "
+                     "(the decoded structure of groups nested two deep is lost)", loc(f))
+
     # ---- rule 5 equality
     eq = methods["__eq__"]
     via_str = False
